@@ -435,7 +435,22 @@ def r11_9(ctx: Ctx) -> None:
               construct="append drops header encryption")
 
 
+def r11_11(ctx: Ctx, rule: str = "R11.11") -> None:
+    """what _prepare_append decides about the header (an archive whose header was encrypted keeps it encrypted, R11.9) is not overwritten by the
+    constructor afterwards: no assignment of `header_encryption` / `encoded_header_mode` in __init__ can be reached from the _prepare_append call."""
+    f = shared.szf(ctx, "__init__")
+    cfg = cfg_of(f.node)
+    pa = [c for c in q.calls(f) if attr_tail(c) == "_prepare_append"]
+    ctx.floor(rule, len(pa), 1, "_prepare_append call in the constructor")
+    for n in [n for n in walk(f.node) if isinstance(n, ast.Assign) and norm(n.targets[0]) in ("self.header_encryption", "self.encoded_header_mode")]:
+        late = any(cfg.reaches(q.node_for(f, c), q.node_for(f, n)) for c in pa)
+        ctx.check(not late, rule, f, n, "the constructor sets the header flags before the archive is opened, not after",
+                  f"`{norm(n)}` comes behind _prepare_append in the constructor: the header encryption an append adopts from an archive with an encrypted header is overwritten by the "
+                  "argument's default - the append rewrites the header (all member names) without 7zAES", construct="header flags set after _prepare_append")
+
+
 def run(ctx: Ctx) -> None:
+    r11_11(ctx)
     from . import c15 as _c15r
     _c15r.r15_16(ctx, rule="R11.10")  # a failed append puts the header back as it was found (encrypted iff it was)
     r11_9(ctx)
